@@ -147,6 +147,11 @@ impl Session {
                 let payload_len = encrypted_data.as_bytes().len();
                 if payload_len > max_payload_len as usize + MHDR_LEN + MIC_LEN {
                     info!("Dropping oversized payload.");
+                    // Class C reception (between or outside the Class A windows) has no
+                    // receive procedure to end and no uplink to account for: just drop.
+                    if ignore_mac {
+                        return Response::NoUpdate;
+                    }
                     return self.rx2_complete(configuration, region);
                 }
             }
